@@ -144,7 +144,7 @@ func (c *Ctx) ruleAddOverflowSigns(rule string) {
 		}
 		return U
 	}
-	c.partialProductNormalised(rule, fi, info, secs, nanos, d, func(e ast.Expr, sa, sb int) int {
+	normalised := c.partialProductNormalised(rule, fi, info, secs, nanos, d, func(e ast.Expr, sa, sb int) int {
 		sign[secs], sign[nanos] = sa, sb
 		delete(sign, d)
 		return eval(e)
@@ -162,8 +162,8 @@ func (c *Ctx) ruleAddOverflowSigns(rule string) {
 				if sa == sb && sa != 0 && sd == 0 {
 					continue // x + y == 0 with equal signs needs both to be MinInt64; nanos is 32 bits wide
 				}
-				if sa == -sb && sa != 0 {
-					// opposite signs: any result sign, never an overflow
+				if sa == -sb && sa != 0 && normalised {
+					continue // excluded by the carry loops: nanos does not oppose secs when the sum is formed
 				}
 				sign[secs], sign[nanos], sign[d] = sa, sb, sd
 				v := F
@@ -232,7 +232,7 @@ func flipCmp(op token.Token) token.Token {
 // nanos cannot have the opposite sign of secs at that point: otherwise, for
 // |secs| just beyond MaxInt64/K, the product overflows although the exact sum
 // is representable (K*ceil(2^63/K) - 2^63 = 145224193 < 2^31 for K = 1e9).
-func (c *Ctx) partialProductNormalised(rule string, fi *FuncInfo, info *types.Info, secs, nanos, d types.Object, evalSigns func(e ast.Expr, sa, sb int) int) {
+func (c *Ctx) partialProductNormalised(rule string, fi *FuncInfo, info *types.Info, secs, nanos, d types.Object, evalSigns func(e ast.Expr, sa, sb int) int) (normalised bool) {
 	R, P := c.R, c.P
 	var K int64
 	var prodStmt ast.Node
@@ -252,7 +252,7 @@ func (c *Ctx) partialProductNormalised(rule string, fi *FuncInfo, info *types.In
 	}
 	if K <= 0 || prodStmt == nil {
 		R.Unk(rule, fi.Key+" partial product", P.Pos(fi.Decl), "constant multiplier of secs not found")
-		return
+		return false
 	}
 	// the rule applies to the algorithm that reads overflow off the partial product
 	partial := false
@@ -265,9 +265,10 @@ func (c *Ctx) partialProductNormalised(rule string, fi *FuncInfo, info *types.In
 	}
 	if !partial {
 		R.Unk(rule, fi.Key+" partial product", P.Pos(prodStmt), "the overflow test of the product (`d/K != T(secs)`) was not found: a different algorithm, not covered by this rule")
-		return
+		return false
 	}
 	const T = 1
+	established := 0
 	for _, dir := range []struct {
 		name   string
 		sa, sb int
@@ -383,7 +384,9 @@ func (c *Ctx) partialProductNormalised(rule string, fi *FuncInfo, info *types.In
 		case ds != int64(-dir.sa):
 			R.Bad(rule, key, P.Pos(loop), "the carry moves secs by "+itoa(int(ds))+" per step, away from zero or past it: the loop does not terminate with matching signs")
 		default:
+			established++
 			R.OK(rule, key, P.Pos(loop), "secs "+itoa(int(ds))+", nanos "+itoa(int(dn))+" per step preserves secs*K+nanos; exit implies nanos does not oppose secs")
 		}
 	}
+	return established == 2
 }
